@@ -693,7 +693,7 @@ def wm_exhaustive(maxlen, nidx=3):
     """All call sequences up to maxlen over Begin/Done of nidx indices and WaitForMark(1): one
     client per call (so that waits can stay parked), DoneUntil observed after every call."""
     import itertools
-    alpha = [("b", i) for i in range(nidx)] + [("d", i) for i in range(nidx)] + [("w", 1)]
+    alpha = [("b", i) for i in range(nidx)] + [("d", i) for i in range(nidx)] + [("w", 1), ("x", 0)]
     scen = []
     for n in range(1, maxlen + 1):
         for seq in itertools.product(alpha, repeat=n):
